@@ -110,6 +110,10 @@ impl<'i> ParserNode<'i> {
                 ParserExpr::Push(node) => {
                     filter_internal(*node, f, result);
                 }
+                #[cfg(feature = "grammar-extras")]
+                ParserExpr::NodeTag(node, _) => {
+                    filter_internal(*node, f, result);
+                }
                 _ => (),
             }
         }
